@@ -20,6 +20,7 @@ import OmbottModel.Drv.RespHelp
 import OmbottModel.Drv.Upload
 import OmbottModel.Drv.Config
 import OmbottModel.Drv.ReqObj
+import OmbottModel.Drv.RegApi
 /-! Dispatch of a protocol line to the area handlers.  `State` holds the few models that are
 driven as state machines across lines (router, multipart feed, header store). -/
 namespace Drv
@@ -59,6 +60,7 @@ def step (st : State) (line : String) : State × String :=
     | "upload" => pure? (Upload.handle rest)
     | "config" => pure? (Config.handle rest)
     | "reqobj" => pure? (ReqObj.handle rest)
+    | "regapi" => pure? (RegApi.handle rest)
     | _ => (st, "bad-op")
 
 end Drv
